@@ -22,4 +22,4 @@ CONSTANTS
   ModelDeviations = TRUE
   Follow <- MCFollowNone
   EmitAll = TRUE
-INVARIANTS TypeOK NoEffectOnReject OneLogPerWrite DefaultsOnlyAtCreation NoAccountDeleted StrictRequiresVersion StrictChartEnforced StrictHasNoDeviation AuditAcceptsAll AuditRelaxesStrict
+INVARIANTS TypeOK NoEffectOnReject OneLogPerWrite DefaultsOnlyAtCreation NoAccountDeleted StrictRequiresVersion StrictChartEnforced StrictHasNoDeviation AuditAcceptsAll AuditRelaxesStrict TemplateDecidesPostings
